@@ -406,6 +406,8 @@ def gen_settings(ctx, full):
             combos = list(itertools.product(VALUES, repeat=len(lv)))
             if not full and kind == 'qmail':
                 combos = rng.sample(combos, 12)
+            elif not full and key not in ('fail_hard_on_temp', 'nonexist_on_block', 'whitelistauth', 'usersize'):
+                combos = rng.sample(combos, 60)
             for combo in combos:
                 c = Case('set-%s' % key, kind)
                 trigger(c, key, rng)
@@ -722,7 +724,7 @@ def run(ctx):
         evaluate(ctx, binary, 'setting-pairs', gen_pairs(ctx, 6000 if full else 500))
         evaluate(ctx, binary, 'file-levels', gen_files(ctx, full))
         evaluate(ctx, binary, 'filterconf-syntax', gen_syntax(ctx, 4000 if full else 400))
-        evaluate(ctx, binary, 'filter-positions', gen_positions(ctx, 30000 if full else 1800))
+        evaluate(ctx, binary, 'filter-positions', gen_positions(ctx, 30000 if full else 1500))
     if not ctx.quick():
         vlib.leanchecker(ctx, ['QsmtpModel.Props.C12', 'QsmtpModel.Lemmas.Rcpt'])
     return vlib.finish(ctx, assumptions=[
